@@ -137,8 +137,25 @@ impl World {
         World { chain, node, log, users, outsider, chans, versions: Vec::new(), filler_seq: 0 }
     }
 
+    /// Deep copy (own chain, node and event log): an identical world to run another execution in.
+    pub fn fork(&self) -> World {
+        let log = EventLog::new();
+        let chain = Arc::new(Mutex::new(lock(&self.chain).clone()));
+        let node = SimNode::new(chain.clone(), log.clone());
+        {
+            let src = lock(&self.node.state);
+            let mut dst = lock(&node.state);
+            dst.mempool = src.mempool.clone();
+            dst.conflicted = src.conflicted.clone();
+            dst.overrides = src.overrides.clone();
+            dst.parent = src.parent.clone();
+            dst.txindex = src.txindex;
+        }
+        World { chain, node, log, users: self.users.clone(), outsider: self.outsider, chans: self.chans.clone(), versions: self.versions.clone(), filler_seq: self.filler_seq }
+    }
+
     pub fn simchain(&self) -> SimChain {
-        SimChain { state: self.chain.clone(), log: self.log.clone(), snap_path: None, armed: std::sync::atomic::AtomicBool::new(false) }
+        SimChain { state: self.chain.clone(), log: self.log.clone(), snap_path: None, armed: std::sync::atomic::AtomicBool::new(false), on_boundary: None }
     }
 
     /// Builds a new appointment version for `chan` whose blob has (about) `target_len` bytes.
